@@ -43,7 +43,11 @@ class Prop(BaseProp):
 
     def contents(self, rng, rel):
         b = Builder(rng, p_doc=0.6, max_depth=2, max_items=4, allow_dangling=False)
-        return render(b.module(), Layout(rng, comments=0.1, wild=0.1))
+        t = render(b.module(), Layout(rng, comments=0.1, wild=0.1))
+        if rng.random() < 0.5:
+            # text outside ASCII in doccomments, values and names
+            t += "#[[[\n# Grüße ✓ 日本語 – naïve café\n#]]\nfunction(uni_fn_ü a)\nendfunction()\n#[[[\n# ünï\n#]]\nset(UNI \"wert ✓\")\n"
+        return t
 
     def run_case(self, idx, rng):
         res = CaseResult()
@@ -149,6 +153,21 @@ class Prop(BaseProp):
                 res.count("fresh_interpreter_runs")
                 if rc != 0:
                     res.violate("variant-run-failed:hashseed", se[-300:], wit)
+                else:
+                    compare(name, read_tree(out_dir(name)), ref)
+            # (a2) another process locale: an ASCII locale with Python's UTF-8 mode switched off. What is written is decided by
+            #      the contents, not by the encoding the environment prefers. (Only for trees whose NAMES are ASCII: under
+            #      such a locale other names cannot even be decoded from the directory listing.)
+            if all(ord(ch) < 128 for f_ in list(tree.files) + list(tree.dirs) for ch in f_):
+                name = "process-locale#ascii"
+                rc, so, se = runner.run_cli([target(loc1), "-o", out_dir(name)] + flags, cwd=sb, home=home,
+                                            env_extra={"PYTHONHASHSEED": "0", "LC_ALL": "C", "LANG": "C", "PYTHONUTF8": "0",
+                                                       "PYTHONCOERCECLOCALE": "0"})
+                res.count("fresh_interpreter_runs")
+                if any(ord(ch) > 127 for t_ in tree.files.values() for ch in t_):
+                    res.count("ascii_locale_runs_over_non_ascii_contents")
+                if rc != 0:
+                    res.violate("variant-run-failed:process-locale", se[-400:], wit)
                 else:
                     compare(name, read_tree(out_dir(name)), ref)
             # (b0) run from inside the input directory with the input spelled '.'
